@@ -55,6 +55,13 @@ func v1Type(r *rand.Rand) *tdesc {
 		case "struct":
 			for i := range t.Fields {
 				walk(t.Fields[i].T)
+				ft := t.Fields[i].T
+				if ft.K == "ptr" {
+					ft = ft.Elem
+				}
+				if ft.K == "struct" && r.IntN(3) == 0 {
+					t.Fields[i].Embedded = true // promoted fields: addressability is inherited from the enclosing value
+				}
 			}
 		default:
 			switch r.IntN(14) {
